@@ -173,23 +173,23 @@ PROPS = {k: v for k, v in globals().items() if len(k) == 3 and k[0] == 'C' and k
 
 TECHNIQUE = {
     'C01': 'contract-based deductive verification of the kernels (own ast->VC generator, z3); bounded dense-matrix stand-in for the class layer',
-    'C02': 'deductive contract on clifford_rotate (z3); bounded dense-matrix stand-in for rotate_by/masks',
+    'C02': 'deductive contracts on clifford_rotate and rotate_by (incl. invariant-preserving state rotation) (z3); bounded dense-matrix stand-in for masks and all receivers',
     'C03': 'deductive contracts on pauli_combine/pauli_transform (z3); bounded dense-matrix stand-in for homomorphism/embedding',
     'C04': 'bounded enumeration of the Clifford group (N=1 exhaustive); deductive functional contract of compose',
-    'C05': 'bounded random histories with dense validity oracle; deductive row-level contracts of map_to_state/clifford_rotate',
-    'C06': 'bounded dense-matrix Born-rule/projection oracle over enumerated tableaux',
-    'C07': 'deductive contract on stabilizer_expect (z3); bounded dense trace oracle',
+    'C05': 'deductive: tableau invariant preserved by measure/project/projection_trace/postselection kernels, state rotation, to_state, copy, measure/postselect glue (z3, unbounded); bounded random histories for map transforms, gates, circuits',
+    'C06': 'deductive per-observable step contract of stabilizer_measure (Born/projection in algebraic form, both coins) (z3); bounded dense-matrix oracle for the identification with matrices',
+    'C07': 'deductive contracts on stabilizer_expect, stabilizer_projection_trace, expect(list/state) (z3); bounded dense trace oracle',
     'C08': 'bounded dense von Neumann entropy oracle',
     'C09': 'bounded program enumeration against gate-by-gate application',
     'C10': 'bounded program enumeration, forward/backward round trips',
     'C11': 'exhaustive check of the finite gate tables against textbook images',
-    'C12': 'deductive contracts on map_to_state/state_to_map (z3); bounded dense oracle for constructors',
+    'C12': 'deductive contracts on map_to_state/state_to_map/to_state/to_map/stabilizer_project (z3); bounded dense oracle for constructors',
     'C13': 'bounded conformance testing torch vs numpy port',
-    'C14': 'bounded dense trajectory oracle for mid-circuit measurement and post-selection',
+    'C14': 'deductive contracts on stabilizer_measure, stabilizer_postselection, postselect, MeasureLayer.forward (z3); bounded dense trajectory oracle for circuits',
     'C15': 'bounded dense-matrix oracle over random expression trees',
-    'C16': 'bounded validity checks and chi-square counting on finite groups',
+    'C16': 'deductive validity of random_pair for every RNG draw (z3); bounded validity checks and chi-square counting on finite groups',
     'C17': 'deductive frame conditions (modifies clauses) of all kernels under contract (z3); bounded snapshot checks for the class layer',
-    'C18': 'deductive contracts on front/pauli_is_onsite; bounded exhaustive diagonalisation check',
+    'C18': 'deductive contracts on front/pauli_is_onsite/pauli_diagonalize1 (z3); bounded exhaustive diagonalisation check, SBRG',
     'C19': 'deductive contract on pauli_combine; bounded membership/expansion/shadow checks',
-    'C20': 'deductive contract on pauli_tokenize (z3); exhaustive parse/print round trips per N',
+    'C20': 'deductive contracts on pauli_tokenize, unit multiplication, negation (z3); exhaustive parse/print round trips per N',
 }
